@@ -31,6 +31,8 @@ func main() {
 		cmdLife(os.Args[2:])
 	case "pair":
 		cmdPair(os.Args[2:])
+	case "parse":
+		cmdParse(os.Args[2:])
 	default:
 		fmt.Fprintln(os.Stderr, "unknown subcommand", os.Args[1])
 		os.Exit(2)
@@ -332,4 +334,51 @@ func cmdPair(args []string) {
 	}
 	of.Close()
 	fmt.Printf("RAN scenarios=%d inconclusive=%d\n", len(scs), nInc)
+}
+
+func cmdParse(args []string) {
+	fs := flag.NewFlagSet("parse", flag.ExitOnError)
+	scen := fs.String("scen", "", "scenario ndjson file")
+	out := fs.String("out", "", "trace ndjson output")
+	par := fs.Int("par", 16, "parallel")
+	fs.Parse(args)
+	f, err := os.Open(*scen)
+	if err != nil {
+		fatal(err)
+	}
+	var scs []drv.ParseScenario
+	rd := bufio.NewScanner(f)
+	rd.Buffer(make([]byte, 1<<20), 1<<26)
+	for rd.Scan() {
+		var sc drv.ParseScenario
+		if err := json.Unmarshal(rd.Bytes(), &sc); err != nil {
+			fatal(err)
+		}
+		scs = append(scs, sc)
+	}
+	f.Close()
+	res := make([][]drv.Ev, len(scs))
+	var wg sync.WaitGroup
+	sem := make(chan struct{}, *par)
+	for i := range scs {
+		wg.Add(1)
+		sem <- struct{}{}
+		go func(i int) {
+			defer wg.Done()
+			defer func() { <-sem }()
+			res[i] = drv.RunParse(scs[i])
+		}(i)
+	}
+	wg.Wait()
+	of, err := os.Create(*out)
+	if err != nil {
+		fatal(err)
+	}
+	for i := range scs {
+		if err := drv.WriteTrace(of, res[i]); err != nil {
+			fatal(err)
+		}
+	}
+	of.Close()
+	fmt.Printf("RAN scenarios=%d inconclusive=0\n", len(scs))
 }
